@@ -681,6 +681,9 @@ macro_rules! for_coll {
             "table:B3" => $f::<TableC<B3>>($($arg),*),
             "table:P8" => $f::<TableC<P8>>($($arg),*),
             "table:L200" => $f::<TableC<L200>>($($arg),*),
+            "set:Z" => $f::<SetC<Z>>($($arg),*),
+            "table:Z8" => $f::<TableC<Z8>>($($arg),*),
+            "map:ZxZ" => $f::<MapC<Z, Z>>($($arg),*),
             other => panic!("unknown collection {}", other),
         }
     }};
